@@ -48,6 +48,8 @@ class Tr:
         # python targets holding an optional number: "none" = Python's None (a comparison with it is never true),
         # "inf" = `float("inf")` is rendered as `none` (everything is below it).  Used by the loop translator.
         self.kinds = {}
+        # python callables that stand for a function parameter of the leaf: source text of the callee -> Lean function name
+        self.funcs = {}
 
     # expressions -------------------------------------------------------------------------
     def expr(self, n) -> str:
@@ -73,6 +75,8 @@ class Tr:
             if isinstance(n.op, ast.Not):
                 return f"(!{self.cond(n.operand)})"
             raise TranslationError("unary operator")
+        if isinstance(n, ast.Call) and ast.unparse(n.func) in self.funcs and not n.keywords:
+            return "(" + " ".join([self.funcs[ast.unparse(n.func)]] + [self.expr(a) for a in n.args]) + ")"
         if isinstance(n, ast.Call):
             f = ast.unparse(n.func)
             if f == "frac" and len(n.args) == 2:
@@ -106,6 +110,17 @@ class Tr:
             if v in self.bools:
                 return v
             return f"(decide ({v} ≠ 0))"  # truthiness of a number
+        if isinstance(n, ast.Call) and ast.unparse(n.func) in ("any", "all") and len(n.args) == 1 and not n.keywords \
+                and isinstance(n.args[0], ast.GeneratorExp) and len(n.args[0].generators) == 1 and not n.args[0].generators[0].ifs \
+                and isinstance(n.args[0].generators[0].target, ast.Name):
+            g = n.args[0].generators[0]
+            var = g.target.id
+            sub = Tr({}, self.bools)
+            sub.env, sub.kinds, sub.funcs = dict(self.env), dict(self.kinds), dict(self.funcs)
+            sub.env[var] = var
+            return f"(({self.expr(g.iter)}).{ast.unparse(n.func)} (fun {var} => {sub.cond(n.args[0].elt)}))"
+        if isinstance(n, ast.Call) and ast.unparse(n.func) in self.funcs and not n.keywords:
+            return self.expr(n)  # a Bool-valued function parameter
         if isinstance(n, ast.Compare) and len(n.ops) == 1 and self.kinds:
             left, right = n.left, n.comparators[0]
             if isinstance(n.ops[0], ast.Is) and isinstance(right, ast.Constant) and right.value is None \
@@ -597,6 +612,97 @@ def loop(path, qual, contains, name, params, state, elem, env, k=0, bools=(), sk
     return go
 
 
+def whileloop(path, qual, name, params, state, env, funcs, assume, ret_ty, fuel_out, bools=()):
+    """
+    The single `while` loop of `qual` as a Lean function with a fuel argument (statement-level leaf):
+
+        def NAME params : Nat → T1 → … → Tn → R
+          | 0, v1, …, vn => <fuel_out>
+          | fuel + 1, v1, …, vn => if TEST then BODY else POST
+
+    BODY in continuation form: `return e` ends with `e`, the end of the body re-enters the loop with the updated state.  POST is the
+    `return` that follows the loop.  `assume` fixes the truth value of tests the leaf is specialised to (e.g. `resoluteness`): only that
+    branch of an `if` on such a test is rendered.  `funcs`: callables that are function parameters of the leaf.
+    """
+
+    def go():
+        src = Src(path)
+        f = src.func(qual)
+        loops = [n for n in ast.walk(f) if isinstance(n, ast.While)]
+        if len(loops) != 1 or loops[0].orelse:
+            raise TranslationError(f"{qual}: exactly one `while` loop expected")
+        w = loops[0]
+        src.touch(w)
+        body_list = f.body
+        idx = [i for i, st in enumerate(body_list) if st is w]
+        if not idx or len(body_list) != idx[0] + 2 or not isinstance(body_list[-1], ast.Return) or body_list[-1].value is None:
+            raise TranslationError(f"{qual}: the loop must be followed by exactly one `return` at the top level of the function")
+        src.touch(body_list[-1])
+        targets = [(_norm(py), lv) for py, lv, _ in state]
+        pn = " ".join(re.findall(r"\((\w[\w ]*?) :", params))
+        assume_n = {_norm(k): v for k, v in assume.items()}
+
+        def tr(cur, local):
+            t = Tr({}, bools)
+            t.env = {_norm(k): v for k, v in env.items()}
+            t.env.update(local)
+            t.env.update(cur)
+            t.funcs = dict(funcs)
+            return t
+
+        def recurse(cur):
+            args = " ".join(f"({cur[k]})" if " " in cur[k] else cur[k] for k, _ in targets)
+            return "(" + " ".join(f"{name} {pn} fuel {args}".split()) + ")"
+
+        def seq(stmts, cur, local):
+            stmts = [x for x in stmts if not (isinstance(x, ast.Expr) and isinstance(x.value, ast.Constant))]
+            if not stmts:
+                return recurse(cur)
+            st, rest = stmts[0], stmts[1:]
+            t = tr(cur, local)
+            if isinstance(st, ast.Return):
+                if st.value is None:
+                    raise TranslationError("bare return")
+                return t.expr(st.value)
+            if isinstance(st, ast.If):
+                key = _norm(ast.unparse(st.test))
+                if key in assume_n:
+                    return seq((st.body if assume_n[key] else st.orelse) + rest, cur, local)
+                return f"(if {t.cond(st.test)} then {seq(st.body + rest, dict(cur), dict(local))} else {seq(st.orelse + rest, dict(cur), dict(local))})"
+            tgt = val = op = None
+            if isinstance(st, ast.Assign) and len(st.targets) == 1:
+                tgt, val, op = ast.unparse(st.targets[0]), st.value, "="
+            elif isinstance(st, ast.AugAssign):
+                tgt, val = ast.unparse(st.target), st.value
+                op = {ast.Add: "+", ast.Sub: "-", ast.Mult: "*", ast.Div: "/"}.get(type(st.op))
+            if tgt is None or op is None:
+                raise TranslationError(f"statement in the while loop outside the subset: {ast.unparse(st)[:60]}")
+            key = _norm(tgt)
+            v = t.expr(val)
+            if key in dict(targets):
+                cur = dict(cur)
+                cur[key] = v if op == "=" else f"({cur[key]} {op} {v})"
+                return seq(rest, cur, local)
+            if op == "=" and re.fullmatch(r"[A-Za-z_][A-Za-z_0-9]*", tgt):
+                local = dict(local)
+                local[tgt] = v
+                return seq(rest, cur, local)
+            raise TranslationError(f"assignment to {tgt} in the while loop")
+
+        cur0 = {k: lv for k, lv in targets}
+        t0 = tr(cur0, {})
+        test = t0.cond(w.test)
+        post = t0.expr(body_list[-1].value)
+        types = [ty for _, _, ty in state]
+        sig = " → ".join(["Nat"] + [f"({t})" if " " in t else t for t in types] + [f"({ret_ty})" if " " in ret_ty else ret_ty])
+        pats = ", ".join(lv for _, lv in targets)
+        text = "\n".join([f"def {name} {params} : {sig}",
+                          f"  | 0, {pats} => {fuel_out}",
+                          f"  | fuel + 1, {pats} => if {test} then {seq(w.body, cur0, {})} else {post}"])
+        return RawDef(text)
+    return go
+
+
 def funloop(path, qual, contains, name, params, state, elem, env, pre=(), fn_ret="Rat", k=0, bools=(), skip=("verbose", "analytics"),
             ret=None, wraps=None, kinds=None, ret_bool=False, inner=()):
     """
@@ -952,6 +1058,20 @@ LEAVES = [
     ("C04", "zeroCostTaken", "(profit : Rat)", "Bool", test(MAXW, "max_additive_utilitarian_welfare_primal_dual_scheme", "profit > 0", {"profit": "profit"})),
     ("C04", "knapsackItem", "(profit : Rat)", "Bool", test(MAXW, "max_additive_utilitarian_welfare_primal_dual_scheme", "profit >= 0", {"profit": "profit"})),
     # ---- C09: exhaustion wrappers
+    # the `while` loop of exhaustion_by_budget_increase as a whole, once per branch of `if resoluteness:` (statement-level leaves; fuel = number of
+    # budgets that may still be tried; `rule b` = the outcome of the base rule at budget b)
+    ("C09", "budgetIncreaseWhile", None, None,
+     whileloop(EXH, "exhaustion_by_budget_increase", "budgetIncreaseWhile",
+               "(rule : Rat → List Nat) (feasible exhaustive : List Nat → Bool) (exhaustiveStop : Bool) (step bound : Rat)",
+               [("current_instance.budget_limit", "cur", "Rat"), ("previous_outcome", "prev", "List Nat")],
+               {"rule(current_instance, profile, **rule_params)": "(rule cur)", "budget_bound": "bound", "budget_step": "step", "exhaustive_stop": "exhaustiveStop"},
+               {"instance.is_feasible": "feasible", "instance.is_exhaustive": "exhaustive"}, {"resoluteness": True}, "List Nat", "prev", bools=("exhaustiveStop",))),
+    ("C09", "budgetIncreaseAllWhile", None, None,
+     whileloop(EXH, "exhaustion_by_budget_increase", "budgetIncreaseAllWhile",
+               "(rule : Rat → List (List Nat)) (feasible exhaustive : List Nat → Bool) (exhaustiveStop : Bool) (step bound : Rat)",
+               [("current_instance.budget_limit", "cur", "Rat"), ("previous_outcome", "prev", "List (List Nat)")],
+               {"rule(current_instance, profile, **rule_params)": "(rule cur)", "budget_bound": "bound", "budget_step": "step", "exhaustive_stop": "exhaustiveStop"},
+               {"instance.is_feasible": "feasible", "instance.is_exhaustive": "exhaustive"}, {"resoluteness": False}, "List (List Nat)", "prev", bools=("exhaustiveStop",))),
     ("C09", "defaultStep", "(budget : Rat)", "Rat", assign(EXH, "exhaustion_by_budget_increase", "budget_step", {"instance.budget_limit": "budget"})),
     ("C09", "defaultBound", "(budget n : Rat)", "Rat", assign(EXH, "exhaustion_by_budget_increase", "budget_bound", {"instance.budget_limit": "budget", "profile.num_ballots()": "n"})),
     ("C09", "withinBound", "(cur bound : Rat)", "Bool", test(EXH, "exhaustion_by_budget_increase", "budget_bound", {"current_instance.budget_limit": "cur", "budget_bound": "bound"}, k=1)),
